@@ -97,6 +97,8 @@ fn base_raw(i: u64) -> RawBlock {
 		diff: 1,
 		neg: Neg::None,
 		neg_pick: 0,
+			hdr: 0,
+			inp: 0,
 	}
 }
 
@@ -177,6 +179,7 @@ pub struct Stats {
 	pub reopen: u32,
 	pub compact_effective: u32,
 	pub status_differs: bool,
+	pub header_first: u32,
 }
 
 /// Full comparison of what the chain reports with the model state of its head.
@@ -306,6 +309,7 @@ fn run_case_inner(ctx: &Ctx, case: &Case, counting: bool) -> PResult {
 		reopen: 0,
 		compact_effective: 0,
 		status_differs: false,
+		header_first: 0,
 	};
 	scan(&cb, &w, "start")?;
 	for (i, op) in case.ops.iter().enumerate() {
@@ -313,6 +317,10 @@ fn run_case_inner(ctx: &Ctx, case: &Case, counting: bool) -> PResult {
 			Op::Block(raw) => {
 				let built = w.build(cb.c(), raw, head).map_err(|e| Fail::new("builder", format!("op {}: {}", i, e)))?;
 				let prev_head = head;
+				header_first(cb.c(), &built.block, raw.hdr, built.verdict.is_ok(), PowMode::Real)?;
+				if raw.hdr != 0 {
+					st.header_first += 1;
+				}
 				let res = cb.c().process_block(built.block.clone(), opts(PowMode::Real));
 				match (&built.verdict, &res) {
 					(Ok(model), Ok(tip)) => {
@@ -347,9 +355,10 @@ fn run_case_inner(ctx: &Ctx, case: &Case, counting: bool) -> PResult {
 					(Err(why), Ok(_)) => {
 						fail!(format!("invalid-block-accepted:{:?}", built.neg), "op {}: block invalid in the model ({:?}) was accepted", i, why);
 					}
-					(Err(_), Err(_)) => {
+					(Err(why), Err(_)) => {
 						st.rejected += 1;
-						*st.negs.entry(format!("{:?}", built.neg)).or_insert(0) += 1;
+						let kind = if built.neg == Neg::None { format!("{:?}", why).split('(').next().unwrap_or("").to_string() } else { format!("{:?}", built.neg) };
+						*st.negs.entry(kind).or_insert(0) += 1;
 					}
 				}
 			}
@@ -392,6 +401,14 @@ fn run_case_inner(ctx: &Ctx, case: &Case, counting: bool) -> PResult {
 		}
 		if st.reopen > 0 {
 			ev.class("histories_with_reopen");
+		}
+		if st.header_first > 0 {
+			ev.class("histories_with_header_first_delivery");
+		}
+		if let (Ok(hh), Ok(h)) = (cb.c().header_head(), cb.c().head()) {
+			if hh.last_block_h != h.last_block_h {
+				ev.class("histories_ending_with_header_head_off_the_body_head");
+			}
 		}
 		if st.compact_effective > 0 {
 			ev.class("histories_with_effective_compaction");
